@@ -765,9 +765,13 @@ def compare_schemas(write: Any, read: Any) -> Any:
                                 write[key][prop], read[key][prop]
                             )
                         elif prop in write[key]:
-                            merged[key][prop] = {**write[key][prop], "writeOnly": True}
+                            merged[key][prop] = JsonSchema(
+                                {**write[key][prop], "writeOnly": True}
+                            )
                         else:
-                            merged[key][prop] = {**read[key][prop], "readOnly": True}
+                            merged[key][prop] = JsonSchema(
+                                {**read[key][prop], "readOnly": True}
+                            )
                 elif key in {
                     "required",
                     "dependentRequired",
@@ -779,7 +783,8 @@ def compare_schemas(write: Any, read: Any) -> Any:
                     merged[key] = compare_schemas(write[key], read[key])
             else:
                 merged[key] = write.get(key, read.get(key))
-        return merged
+        # keep JsonSchema class, because version conversion relies on it
+        return JsonSchema(merged) if isinstance(write, JsonSchema) else merged
     elif isinstance(read, Sequence) and not isinstance(read, str):
         if not isinstance(read, Sequence) or len(write) != len(read):
             raise ValueError
